@@ -741,7 +741,8 @@ func NewPacket(data []byte, firstLayerDecoder Decoder, options DecodeOptions) (p
 		)
 		if options.Pool && len(data) <= maximumMTU {
 			poolMemory = poolPackedPool.Get().(*[]byte)
-			dataCopy = (*poolMemory)[:len(data)]
+			// cap the slice: decoders must not see (or append into) the stale rest of the pooled block
+			dataCopy = (*poolMemory)[:len(data):len(data)]
 			copy(dataCopy, data)
 			data = dataCopy
 			defer func() {
